@@ -497,6 +497,11 @@ impl<'a> Printer<'a> {
             }
         }
         for f in &self.p.funcs {
+            // a function named ext_* with a prototype and no body stands for a routine written in
+            // assembler elsewhere: only its prototype is printed
+            if f.proto_first && f.body.is_empty() && f.name.starts_with("ext_") {
+                continue;
+            }
             out.push_str(&format!("{} {{\n", self.func_header(f)));
             for s in &f.body {
                 self.stmt(s, 1, &mut out);
